@@ -99,7 +99,7 @@ func report(prop, tier string, seed int, out string, results []jobResult, loaded
 	// vacuity: every harness instance must have at least one complete path with a model
 	var vacuous []string
 	for _, jr := range results {
-		if jr.res.Witness == nil && len(jr.res.Violations) == 0 && jr.res.EngineError == "" && jr.spec.Opts["may_be_vacuous"] == "" {
+		if jr.res.Witness == nil && !jr.res.Skipped && len(jr.res.Violations) == 0 && jr.res.EngineError == "" && jr.spec.Opts["may_be_vacuous"] == "" {
 			vacuous = append(vacuous, fmt.Sprintf("%s%v", jr.res.Harness, jr.res.Cases))
 		}
 	}
@@ -111,6 +111,12 @@ func report(prop, tier string, seed int, out string, results []jobResult, loaded
 	} else {
 		for _, v := range viols {
 			v.Replayed = "skipped"
+		}
+	}
+	for _, jr := range results {
+		if jr.res.EngineError != "" {
+			msg := fmt.Sprintf("%s%v: %s", jr.res.Harness, jr.res.Cases, jr.res.EngineError)
+			engineErrs = appendUniq(engineErrs, msg)
 		}
 	}
 	// classify violations
